@@ -230,6 +230,67 @@ theorem bip39_accepted_iff_encoding (idx : List Nat) (e : Bits) :
       idx.length ∈ [12, 15, 18, 21, 24, 48] ∧ bip39Indexes sha256 e = some idx ∧ e.length = idx.length / 3 * 32 :=
   bip39Entropy_eq_some_iff_full sha256 sha256_length idx e
 
+/-- BIP39 checksum BINDING, exactly what holds (any 32-byte hash): the entropy determines the sentence — two accepted
+    sentences that decode to the same entropy are the same sentence.  Hence ONE CHANGED WORD (or any other change) is
+    either refused or read as a DIFFERENT entropy, never silently as the same one.  (It is NOT always refused: a change
+    that alters the entropy bits passes when the new checksum bits happen to match — 1 in 16 for twelve words; that is
+    `bip39_accepted_iff_encoding`.)  A change that leaves the entropy bits alone — confined to the checksum bits of the
+    last word — is ALWAYS refused. -/
+theorem bip39_checksum_binds_any_hash (H : Bytes → Bytes) (hH : ∀ b, (H b).length = 32) :
+    (∀ idx idx' e, bip39Entropy H idx = some e → bip39Entropy H idx' = some e → idx = idx') ∧
+    (∀ p q a b e e', a ≠ b → bip39Entropy H (p ++ a :: q) = some e → bip39Entropy H (p ++ b :: q) = some e' → e ≠ e') ∧
+    (∀ idx idx' cse cse', bitsFromIndexes idx Gen.Mnemonic.BIP39_BASE = some cse →
+      bitsFromIndexes idx' Gen.Mnemonic.BIP39_BASE = some cse' → cse.length = cse'.length →
+      cse.take (cse.length * Gen.Mnemonic.CS_NUM / Gen.Mnemonic.CS_DEN) =
+        cse'.take (cse'.length * Gen.Mnemonic.CS_NUM / Gen.Mnemonic.CS_DEN) →
+      idx ≠ idx' → bip39Entropy H idx = none ∨ bip39Entropy H idx' = none) := by
+  have bind : ∀ idx idx' e, bip39Entropy H idx = some e → bip39Entropy H idx' = some e → idx = idx' := by
+    intro idx idx' e h h'
+    have a := ((bip39Entropy_eq_some_iff_full H hH idx e).mp h).2.1
+    have b := ((bip39Entropy_eq_some_iff_full H hH idx' e).mp h').2.1
+    rw [a] at b
+    exact Option.some.inj b
+  refine ⟨bind, ?_, ?_⟩
+  · intro p q a b e e' hab h h' hee
+    subst hee
+    have := bind _ _ _ h h'
+    have := List.append_cancel_left this
+    simp at this
+    exact hab this
+  · intro idx idx' cse cse' hc hc' hl ht hne
+    cases h : bip39Entropy H idx with
+    | none => exact Or.inl rfl
+    | some e =>
+      cases h' : bip39Entropy H idx' with
+      | none => exact Or.inr rfl
+      | some e' =>
+        exfalso
+        apply hne
+        have he : e = e' := by
+          simp only [bip39Entropy, hc] at h
+          simp only [bip39Entropy, hc', ← ht] at h'
+          cases hk : entropyChecksum H (cse.take (cse.length * Gen.Mnemonic.CS_NUM / Gen.Mnemonic.CS_DEN)) with
+          | none => simp [hk] at h
+          | some pr =>
+            simp only [hk] at h h'
+            split at h
+            · cases h
+            · split at h'
+              · cases h'
+              · cases h; cases h'; rfl
+        subst he
+        exact bind _ _ _ h h'
+
+theorem bip39_checksum_binds :
+    (∀ idx idx' e, bip39Entropy sha256 idx = some e → bip39Entropy sha256 idx' = some e → idx = idx') ∧
+    (∀ p q a b e e', a ≠ b → bip39Entropy sha256 (p ++ a :: q) = some e → bip39Entropy sha256 (p ++ b :: q) = some e' → e ≠ e') :=
+  ⟨(bip39_checksum_binds_any_hash sha256 sha256_length).1, (bip39_checksum_binds_any_hash sha256 sha256_length).2.1⟩
+
+/-- non-vacuity: the hypothesis "accepted" is satisfiable for the SHA-256 the driver runs (128 zero bits) -/
+example : ∃ idx, bip39Entropy sha256 idx = some (List.replicate 128 false) := by
+  obtain ⟨idx, _, _, _, h⟩ := bip39_roundtrip (List.replicate 128 false) (by simp [Gen.Mnemonic.ENTROPY_BITS])
+  exact ⟨idx, h⟩
+
 /-- Electrum: the self-check of `_search_mnemonic` (`candidate == int(entropy_from(mnemonic_of(candidate)))`) holds
     for every candidate and every word-list length ≥ 2 (2048, and the 1626 of Electrum's Portuguese) -/
 theorem electrum_selfcheck (base v : Nat) (hb : 2 ≤ base) :
